@@ -32,7 +32,7 @@ def C01(rep, prog, tier):
 def _answers_reach_the_caller(rep, ex):
     """An operator's answer is observed through single_inference and the manager's report: both must hand every query
     its own answer (ROWS.key, ROWS.columns)."""
-    wrappers.rows(rep, ex, which=("single", "manager"), rules=("ROWS.key", "ROWS.columns"))
+    wrappers.rows(rep, ex, which=("single", "manager"), rules=("ROWS.key", "ROWS.columns", "TIMEOUT.row"))
 
 
 def _encoding_and_enumeration(rep, ex):
